@@ -556,8 +556,8 @@ def r11(ctx, rep):
         import guards as _g
         par_ = _g.parents(f["body"])
         cur = branch
-        while id(cur) in par_ and not (par_[id(cur)].get("k") == "if"):
-            cur = par_[id(cur)]
+        while id(cur) in par_ and not (par_[id(cur)].get("k") in ("if", "match") or ("k" not in par_[id(cur)] and "pat" in par_[id(cur)])):
+            cur = par_[id(cur)]            # (the branch that prepends: of an `if`, or an arm of a `match`)
         scope = cur
         attempts = [n for n in walk(scope) if (n.get("k") == "mcall" and n["m"] == "resolve_ident_core") or (n.get("k") == "call" and last_seg(show(n["f"])) == "resolve_ident_core")]
         attempts.sort(key=lambda n: (n["l"], n.get("c", 0)))
